@@ -437,6 +437,99 @@ def server_work(item):
     return part
 
 
+# -- the client's parsers always return (no input makes them take more than linear time) -----------------------------
+def pump_inputs(tier):
+    """every seed with a long run of one token class pumped in at every token boundary, followed by a character that
+    makes the match fail late"""
+    out = []
+    runs = [30, 400] if tier == "quick" else [30, 400, 20000]
+    tokens = ["1", " ", ",", "(", ")", "|", '"', "a", "1,", " 1", "1 ", '""', "-", ";", "=", "/"]
+    fams = [("pasv", PASV), ("epsv", EPSV), ("d257", D257), ("unix", [u.decode() for u in UNIX]),
+            ("windows", [x.decode() for x in WINDOWS]), ("mlsx", [m.decode() for m in MLSX])]
+    for fam, seeds in fams:
+        for seed in seeds[:3]:
+            cuts = sorted({0, len(seed)} | {i for i, ch in enumerate(seed) if not ch.isalnum()}
+                          | {i + 1 for i, ch in enumerate(seed) if not ch.isalnum()})
+            for cut in cuts:
+                for tok in tokens:
+                    for n in runs:
+                        for tail in ("", "x", "("):
+                            out.append((fam, seed[:cut] + tok * n + tail + seed[cut:]))
+                            if tail == "x":
+                                out.append((fam, seed[:cut] + tok * n + tail))          # ... and nothing after it
+    return out
+
+
+def _pump_worker(conn, inputs, src):
+    import sys
+    sys.path.insert(0, src)
+    import aioftp
+    c = aioftp.Client(path_io_factory=aioftp.MemoryPathIO)
+    for idx, (fam, text) in inputs:
+        conn.send(("start", idx))
+        try:
+            if fam == "pasv":
+                c.parse_pasv_response(text)
+            elif fam == "epsv":
+                c.parse_epsv_response(text)
+            elif fam == "d257":
+                c.parse_directory_response(text)
+            elif fam == "mlsx":
+                c.parse_mlsx_line(text.encode())
+            else:
+                c.parse_list_line(text.encode())
+        except Exception:
+            pass
+        conn.send(("done", idx))
+    conn.send(("end", None))
+
+
+def parser_termination(tier):
+    import multiprocessing as mp
+    import os
+    import aioftp
+    src = os.path.dirname(os.path.dirname(aioftp.__file__))
+    part = report.Partial()
+    inputs = list(enumerate(pump_inputs(tier)))
+    budget = 3.0                     # seconds of wall clock for ONE input of at most ~20 KB; linear parsers need microseconds
+    pos = 0
+    ctx = mp.get_context("fork")
+    while pos < len(inputs):
+        parent, child = ctx.Pipe()
+        proc = ctx.Process(target=_pump_worker, args=(child, inputs[pos:], src), daemon=True)
+        proc.start()
+        current = None
+        while True:
+            if not parent.poll(budget):
+                # no progress for `budget` seconds on one input
+                proc.kill()
+                proc.join()
+                fam, text = inputs[current][1] if current is not None else ("?", "")
+                part.violation({"kind": "client-parser-does-not-return", "family": fam},
+                               {"input": text[:80] + ("..." if len(text) > 80 else ""), "length": len(text),
+                                "budget_s": budget}, replay={"pump": [fam, text]})
+                pos = (current if current is not None else pos) + 1
+                break
+            msg, idx = parent.recv()
+            if msg == "start":
+                current = idx
+            elif msg == "done":
+                part.evaluations += 1
+                pos = idx + 1
+            else:
+                proc.join()
+                pos = len(inputs)
+                break
+        if len(part.violations) >= 5:
+            break
+    part.transitions += part.evaluations
+    part.counters["pumped_parser_inputs"] = len(inputs)
+    k = report.fp(["pump", len(inputs)])
+    part.states.add(k)
+    part.nontrivial.add(k)
+    return part
+
+
 def run(tier, seed, t0):
     pw = 12 if tier == "quick" else 0
     parser_items = [("unix", [s], pw) for s in UNIX] + [("windows", [s], pw) for s in WINDOWS] + \
@@ -455,9 +548,13 @@ def run(tier, seed, t0):
     for state in ("fresh", "pending", "alice"):
         sitems += [(core[i:i + 30], solo, state) for i in range(0, len(core), 30)]
     parts = report.pmap(parser_work, parser_items) + report.pmap(client_work, citems) + report.pmap(server_work, sitems)
+    parts.append(parser_termination(tier))
     part = report.merge_all(parts)
     bounds = {"parser_seeds": {"unix": len(UNIX), "windows": len(WINDOWS), "mlsx": len(MLSX), "pasv": len(PASV), "epsv": len(EPSV),
                                "257": len(D257)}, "mutation_alphabet": len(GAMMA),
+              "termination": "every parser seed with runs of 30/400%s repetitions of 16 token classes pumped in at every token "
+                             "boundary + a late-failing tail; each input in a child process with a 3 s wall-clock budget"
+                             % ("" if tier == "quick" else "/20000"),
               "operators": ["delete 1..6", "insert", "replace", "truncate head/tail", "swap tokens", "duplicate token"],
               "pairs": "window %d" % (12 if tier == "quick" else 40), "client_e2e_cases": ncases,
               "hostile_lines": len(hl), "hostile_login_states": list(STATES), "limits": "server 3, user alice 1", "line_lengths": "2^16-2 .. 2^16+2, 2^17 (with and without line end)"}
@@ -478,5 +575,26 @@ def replay(path):
         problems, result, _ = client_case(rp["client"])
         print(json.dumps({"problems": problems, "result": result}, indent=1, default=repr))
         return 1 if problems else 0
+    if "pump" in rp:
+        import multiprocessing as mp
+        import os
+        import aioftp
+        src = os.path.dirname(os.path.dirname(aioftp.__file__))
+        ctx = mp.get_context("fork")
+        parent, child = ctx.Pipe()
+        proc = ctx.Process(target=_pump_worker, args=(child, [(0, tuple(rp["pump"]))], src), daemon=True)
+        proc.start()
+        proc.join(6)
+        hung = proc.is_alive()
+        if hung:
+            proc.kill()
+        print(json.dumps({"input_length": len(rp["pump"][1]), "returned_within_6s": not hung}))
+        return 1 if hung else 0
+    if "parser" in rp:
+        fam, text = rp["parser"]
+        part = parser_work((fam, [text.encode("latin-1")], 0))
+        vs = [v for v in part.violations if v["replay"] == {"parser": [fam, text]}]
+        print(json.dumps([v["detail"] for v in vs], indent=1, default=repr))
+        return 1 if vs else 0
     print(json.dumps(data["detail"], indent=1, default=repr))
     return 1
